@@ -151,7 +151,11 @@ Example C02_by_name_forms_example :
   compile_e e = [Byte.x5f; Byte.x01; Byte.x4c; Byte.x00; Byte.x43; Byte.x02; Byte.x57; Byte.x00; Byte.x61; Byte.x02] /\
   gen_lingo (reify_e en 0 e) 0 = "the width of x(the frameLabel, s)" /\
   gen_lingo (reify_e en 0 (ETheN 3)) 0 = "the ink" /\
-  parse_expr 20 (strip (pp_tok en e)) = Some (e, []).
+  parse_expr 20 (strip (pp_tok en e)) = Some (e, []) /\
+  (* ... and written: set the <name> = ... (target TByName, opcode 60 n, the property-write class under its second opcode) *)
+  compile_s (SSet (TByName 3) (EInt 1)) = [Byte.x41; Byte.x01; Byte.x60; Byte.x03] /\
+  gen_lingo (reify_s en [] 0 (SSet (TByName 3) (EInt 1))) 1 = ("    set the ink = 1" ++ "
+")%string.
 Proof. split; [cbn; repeat split; lia|]. split; [cbn; repeat split; reflexivity|]. repeat split; vm_compute; reflexivity. Qed.
 
 (* Statement lines: the line emitted for a decompiled assignment or statement-position call is the canonical
